@@ -89,6 +89,7 @@ def redraw_numeric(rng: random.Random, g: dict) -> dict:
     h["nesterov"] = rng.random() < 0.4
     h["bias_corr"] = rng.random() < 0.6
     h["decoupled"] = rng.random() < 0.5
+    h["qr_iters"], h["qr_tol"] = rng.choice([1, 2, 3, 5, 50]), rng.choice([0.0, 1e-5, 1e-3])
     if h["b1"][h["b10"]] != 0.0:
         h["beta3"] = rng.choice([-1.0, -1.0, 0.3, 0.6])
     if h["graft"]:
